@@ -75,6 +75,7 @@ type Enc struct {
 	loopOrd    map[*ssa.BasicBlock]int
 	noPreserve map[string]bool // keys exempt from havoc_preserves during the havoc of one contracted call
 	autoInlined map[string]bool // uncontracted repository functions whose bodies were encoded in place
+	sweep       bool            // `gowp sweep`: reference-typed parameters are assumed non-nil
 }
 
 func (x *Enc) note(s string) { x.notes[s] = true }
@@ -199,6 +200,12 @@ func (x *Enc) encodeTop() {
 		fr.params[p.Name()] = v
 		fr.ptypes[p.Name()] = p.Type()
 		facts = append(facts, x.typeFacts(p.Type(), v, h0))
+		if x.sweep && len(v.ts) > 0 {
+			switch p.Type().Underlying().(type) {
+			case *types.Pointer, *types.Interface, *types.Map, *types.Chan, *types.Signature:
+				facts = append(facts, not(eq(v.ts[0], "0")))
+			}
+		}
 	}
 	x.topDerefs = map[string]derefVar{}
 	for _, p := range fn.FreeVars {
